@@ -191,7 +191,7 @@ fn gen_ops(rng: &mut Rng, maxn: usize) -> (Vec<Op>, String) {
         for (a, b) in es {
             ops.push(Op::Edge { k: kind(rng), a, b });
         }
-    } else if shape < 92 {
+    } else if shape < 91 {
         name = "complete";
         let n = 2 + rng.below((maxn.max(3) - 1) as u64) as usize;
         add_fns(rng, &mut ops, n, density);
@@ -204,6 +204,32 @@ fn gen_ops(rng: &mut Rng, maxn: usize) -> (Vec<Op>, String) {
             for j in i + 1..n {
                 es.push((perm[i], perm[j]));
             }
+        }
+        for i in (1..es.len()).rev() {
+            es.swap(i, rng.below(i as u64 + 1) as usize);
+        }
+        for (a, b) in es {
+            ops.push(Op::Edge { k: kind(rng), a, b });
+        }
+    } else if shape < 93 {
+        // tree: every function has one parent, fan-out 2..4, edges added in shuffled order — with a small
+        // limit the ready queue backs up while completed functions release whole groups of children
+        name = "tree";
+        let n = 5 + rng.below((2 * maxn.max(4)) as u64) as usize;
+        let dens = if rng.chance(70) { 0 } else { density };
+        add_fns(rng, &mut ops, n, dens);
+        let mut es = vec![];
+        let mut next = 1usize;
+        let mut parent = 0usize;
+        while next < n {
+            let fan = 2 + rng.below(3) as usize;
+            for _ in 0..fan {
+                if next < n {
+                    es.push((parent, next));
+                    next += 1;
+                }
+            }
+            parent += 1;
         }
         for i in (1..es.len()).rev() {
             es.swap(i, rng.below(i as u64 + 1) as usize);
@@ -753,7 +779,7 @@ fn kpops_main(sizes: &str) {
             for l in out {
                 let _ = writeln!(lock, "{}", l);
             }
-            if ms > 5000 {
+            if ms > 1500 {
                 return; // the series has left polynomial territory; the check reports it
             }
         }
